@@ -8547,3 +8547,245 @@ func ruleUnmarshalFresh(w *World, r *Report) {
 		r.exempt("UNMARSHAL-FRESH", "pkg=crolt", "", "no json.Unmarshal in a loop found: not decided")
 	}
 }
+
+// ERR-REDRESS (C06, C13): an error that callers classify by its type keeps its type.
+func ruleErrRedress(prop string) ruleFn {
+	return func(w *World, r *Report) {
+		r.Rule("ERR-REDRESS", "rulio classifies errors with plain type assertions (err.(*ExpiredError), err.(*NotFoundError), ...), not with errors.As: IndexedState.Load recognises a stored fact that has expired that way and sweeps it; everything else is a failed load.  A function that can hand out an error of a rulio type T (it makes one, or hands on the error of a function that can), and whose error some caller — directly or through functions that hand it on — tests for T, never re-dresses an error on its way out: no fmt.Errorf in it (or in a function it defers) is given an existing error as an argument and returned in its place.  `fact 'x': %w` around an *ExpiredError is no *ExpiredError any more: the location can never be loaded again, and every request answers with that error", 1)
+		errTypeOf := func(t types.Type) *types.Named {
+			pt, ok := t.(*types.Pointer)
+			if !ok {
+				return nil
+			}
+			nt, ok := pt.Elem().(*types.Named)
+			if !ok || nt.Obj().Pkg() == nil || !strings.HasPrefix(nt.Obj().Pkg().Path(), modPath) {
+				return nil
+			}
+			return nt
+		}
+		returnsErr := func(g *ssa.Function) bool {
+			rs := g.Signature.Results()
+			return rs.Len() > 0 && isErrorType(rs.At(rs.Len()-1).Type())
+		}
+		errOperands := func(f *ssa.Function, visit func(v ssa.Value)) {
+			withAnon(f, func(g *ssa.Function) {
+				allInstrs(g, func(in ssa.Instruction) {
+					switch t := in.(type) {
+					case *ssa.Return:
+						if g != f {
+							return
+						}
+						for _, rv := range t.Results {
+							if isErrorType(rv.Type()) {
+								visit(rv)
+							}
+						}
+					case *ssa.Store:
+						if isErrorType(t.Val.Type()) {
+							visit(t.Val)
+						}
+					}
+				})
+			})
+		}
+		var all []*ssa.Function
+		for _, fn := range w.Funcs {
+			if w.IsRulio(fn) && !isTestFile(w, fn) && fn.Parent() == nil && len(fn.Blocks) > 0 {
+				all = append(all, fn)
+			}
+		}
+		// canReturn[f]: the rulio error types f can hand out
+		canReturn := map[*ssa.Function]map[string]bool{}
+		addT := func(m map[*ssa.Function]map[string]bool, f *ssa.Function, t string) bool {
+			if m[f] == nil {
+				m[f] = map[string]bool{}
+			}
+			if m[f][t] {
+				return false
+			}
+			m[f][t] = true
+			return true
+		}
+		for changed := true; changed; {
+			changed = false
+			for _, f := range all {
+				if !returnsErr(f) {
+					continue
+				}
+				errOperands(f, func(v ssa.Value) {
+					dependsOn(v, func(x ssa.Value) bool {
+						switch t := x.(type) {
+						case *ssa.MakeInterface:
+							if nt := errTypeOf(t.X.Type()); nt != nil && addT(canReturn, f, nt.Obj().Name()) {
+								changed = true
+							}
+						case *ssa.Call:
+							for _, g := range w.Callees(t) {
+								for ty := range canReturn[g] {
+									if addT(canReturn, f, ty) {
+										changed = true
+									}
+								}
+							}
+						}
+						return false
+					})
+				})
+			}
+		}
+		// tested[f]: the types some caller tests f's error for (directly, or through functions that hand it on)
+		tested := map[*ssa.Function]map[string]bool{}
+		where := map[string]string{}
+		for _, fn := range w.Funcs {
+			if !w.IsRulio(fn) || isTestFile(w, fn) {
+				continue
+			}
+			allInstrs(fn, func(in ssa.Instruction) {
+				ta, ok := in.(*ssa.TypeAssert)
+				if !ok || !isErrorType(ta.X.Type()) {
+					return
+				}
+				nt := errTypeOf(ta.AssertedType)
+				if nt == nil {
+					return
+				}
+				dependsOn(ta.X, func(v ssa.Value) bool {
+					if c, ok := v.(*ssa.Call); ok {
+						for _, g := range w.Callees(c) {
+							if w.IsRulio(g) && !isTestFile(w, g) && returnsErr(g) {
+								addT(tested, g, nt.Obj().Name())
+								if where[nt.Obj().Name()] == "" {
+									where[nt.Obj().Name()] = fname(fn)
+								}
+							}
+						}
+					}
+					return false
+				})
+			})
+		}
+		for changed := true; changed; {
+			changed = false
+			for _, f := range all {
+				if len(tested[f]) == 0 {
+					continue
+				}
+				errOperands(f, func(v ssa.Value) {
+					dependsOn(v, func(x ssa.Value) bool {
+						if c, ok := x.(*ssa.Call); ok {
+							for _, g := range w.Callees(c) {
+								if !w.IsRulio(g) || isTestFile(w, g) || !returnsErr(g) {
+									continue
+								}
+								for ty := range tested[f] {
+									if canReturn[g][ty] && addT(tested, g, ty) {
+										changed = true
+									}
+								}
+							}
+						}
+						return false
+					})
+				})
+			}
+		}
+		n := 0
+		sort.Slice(all, func(i, j int) bool { return fname(all[i]) < fname(all[j]) })
+		for _, f := range all {
+			var tys []string
+			for ty := range tested[f] {
+				if canReturn[f][ty] {
+					tys = append(tys, ty)
+				}
+			}
+			if len(tys) == 0 {
+				continue
+			}
+			sort.Strings(tys)
+			n++
+			key := "fn=" + fname(f)
+			var bad ssa.Instruction
+			withAnon(f, func(g *ssa.Function) {
+				allInstrs(g, func(in ssa.Instruction) {
+					c, ok := in.(*ssa.Call)
+					if !ok || c.Common().StaticCallee() == nil || c.Common().StaticCallee().Pkg == nil {
+						return
+					}
+					cf := c.Common().StaticCallee()
+					if !(cf.Pkg.Pkg.Path() == "fmt" && cf.Name() == "Errorf") {
+						return
+					}
+					// an existing error among the arguments, which can be of one of the types
+					takesErr := false
+					if len(c.Common().Args) >= 2 {
+						for _, a := range variadicArgs(c.Common().Args[len(c.Common().Args)-1]) {
+							if ci, ok := a.(*ssa.ChangeInterface); ok {
+								a = ci.X
+							}
+							if a == nil || !isErrorType(a.Type()) {
+								continue
+							}
+							could := false
+							dependsOn(a, func(v ssa.Value) bool {
+								switch t := v.(type) {
+								case *ssa.Call:
+									for _, h := range w.Callees(t) {
+										for _, ty := range tys {
+											if canReturn[h][ty] {
+												could = true
+											}
+										}
+									}
+								case *ssa.MakeInterface:
+									if nt := errTypeOf(t.X.Type()); nt != nil {
+										could = true
+									}
+								case *ssa.FreeVar, *ssa.Alloc:
+									could = true // the named result: whatever the function hands out
+								}
+								return false
+							})
+							if could {
+								takesErr = true
+							}
+						}
+					}
+					if !takesErr {
+						return
+					}
+					// ... and handed back in its place: returned, or stored into the (captured) named result
+					out := false
+					allInstrs(g, func(x ssa.Instruction) {
+						switch t := x.(type) {
+						case *ssa.Return:
+							for _, rv := range t.Results {
+								if isErrorType(rv.Type()) && dependsOn(rv, func(v ssa.Value) bool { return v == ssa.Value(c) }) {
+									out = true
+								}
+							}
+						case *ssa.Store:
+							if !isErrorType(t.Val.Type()) || !dependsOn(t.Val, func(v ssa.Value) bool { return v == ssa.Value(c) }) {
+								return
+							}
+							if _, isFree := t.Addr.(*ssa.FreeVar); isFree {
+								out = true
+							}
+						}
+					})
+					if out && bad == nil {
+						bad = in
+					}
+				})
+			})
+			what := strings.Join(tys, ", ") + " (tested in " + where[tys[0]] + ")"
+			if bad != nil {
+				r.violation("ERR-REDRESS", key, w.PosOf(bad), "an error that can be a *"+what+" is re-dressed on its way out: the caller's classification no longer matches")
+			} else {
+				r.ok("ERR-REDRESS", key, w.Pos(f.Pos()), "hands on *"+what+" as it is")
+			}
+		}
+		if n == 0 {
+			r.exempt("ERR-REDRESS", "pkg=core", "", "no error classified by a type assertion found: not decided")
+		}
+	}
+}
